@@ -120,6 +120,29 @@ def run(ctx):
                 viol.append(dict(v, what="server protocol log: %r" % srv.log))
             if len(samples) < 3:
                 samples.append({"announced": ann, "authmech": authmech, "selected": want, "login": login})
+    # the announcement that counts is the one made on the channel the credentials travel on: after STARTTLS the list sent
+    # with the greeting is void — a missing SASL line, an empty one, or only unknown / look-alike names mean "nothing announced"
+    for pre in (b"PLAIN LOGIN", b"PLAIN", b"DIGEST-MD5 PLAIN LOGIN OAUTHBEARER"):
+        for post, want in ((False, None), (b"", None), (b"GSSAPI", None), (b"PLAIN-CLIENTTOKEN X-LOGIN", None), (b"LOGIN", "LOGIN"), (b"OAUTHBEARER", "OAUTHBEARER")):
+            for authmech in (None, "PLAIN"):
+                login, pw, authz = r.choice(CREDS)
+                srv = refserver.RefServer(r, starttls=True, sasl=pre, post_tls_sasl=post, users={login.encode(): pw.encode()})
+                s = msref.Session()
+                g = srv.greeting()
+                out = s.connect(b"", [], login, pw, authz, True, authmech, server=srv)
+                lines += ["c op=new", msref.req_connect(g, [], login, pw, authz, True, authmech, later=list(s.wire.segments))]
+                expect += ["ok", out]
+                evals += 1
+                nontriv += 1
+                exp = want if (authmech is None or authmech == want) else None
+                auths = [b for t, b in s.wire.writes if b.upper().startswith(b"AUTHENTICATE")]
+                v = {"announced_before_tls": pre.decode(), "announced_after_tls": (post.decode() if post is not False else "(no SASL line)"), "authmech": authmech, "result": out[:100]}
+                if exp is None and auths:
+                    viol.append(dict(v, what="nothing the client may use is announced after STARTTLS, yet it authenticated with %r" % auths[0][:40]))
+                if exp is not None and not (auths and exp.encode() in auths[0].upper()):
+                    viol.append(dict(v, what="expected %s after STARTTLS, AUTHENTICATE lines: %r" % (exp, [a[:40] for a in auths])))
+                if any("unannounced" in l for l in srv.log):
+                    viol.append(dict(v, what="server protocol log: %r" % srv.log))
     model = run_driver(lines, live_table=False)
     diffs = [{"suite": "client", "request": l[:300], "impl": e[:300], "model": m[:300]} for l, e, m in zip(lines, expect, model) if e != m]
     fresh, known = split_known("C16", viol, matcher)
